@@ -129,7 +129,7 @@ theorem swapOps_moves {name : Asset → String} {w w' : World} {s : Nat} {funds 
   obtain ⟨w1, h1, rfl, _⟩ := h
   unfold routerExec at h1
   simp only [bind_ok_iff] at h1
-  obtain ⟨w0, h0, h1⟩ := h1
+  obtain ⟨w0, h0, _, _, h1⟩ := h1
   have s0 := (attach_same h0).1
   refine (C07.attach_moves (.inl rfl) (.inr (.inl rfl)) h0).trans ?_
   refine routerSwapOps_moves' h1 (.inr (.inr (.inl rfl))) (.inr (.inl s0.router)) ?_
@@ -148,7 +148,8 @@ theorem rawReceive_moves {name : Asset → String} {w w' : World} {s f amt : Nat
   obtain ⟨w0, h0, h1⟩ := h1
   have s0 := (attach_same h0).1
   refine (C07.attach_moves (.inl rfl) (.inr (.inl rfl)) h0).trans ?_
-  have h1 : routerSwapOps name w0 f ops mn toAddr = .ok w1 := h1
+  obtain ⟨_, _, _, he, _, _, h1⟩ := routerReceive_ok h1
+  cases he
   refine routerSwapOps_moves' h1 (.inr (.inr (.inl rfl))) (.inr (.inl s0.router)) ?_
   intro o a R hm hR
   exact .inr (.inr (.inr ⟨o, a, R, hm, by rw [← facLookup_same s0]; exact hR, rfl⟩))
@@ -171,7 +172,8 @@ theorem tokSendRoute_moves {name : Asset → String} {w w' : World} {t s amt : N
     obtain ⟨w1, h1, w2, h2, rfl, _⟩ := h
     have s1 := (tokTransfer_same h1).1
     refine (C07.Moves.xfer (.inl rfl) (.inr (.inl rfl)) h1).trans ?_
-    have h2 : routerSwapOps name w1 s ops mn toAddr = .ok w2 := h2
+    obtain ⟨_, _, _, he, _, _, h2⟩ := routerReceive_ok h2
+    cases he
     refine routerSwapOps_moves' h2 (.inr (.inr (.inl rfl))) (.inr (.inl s1.router)) ?_
     intro o a R hm hR
     exact .inr (.inr (.inr ⟨o, a, R, hm, by rw [← facLookup_same s1]; exact hR, rfl⟩))
@@ -185,7 +187,7 @@ theorem swapOp_moves {name : Asset → String} {w w' : World} {s : Nat} {funds :
   obtain ⟨w1, h1, rfl, _⟩ := h
   unfold routerExec at h1
   simp only [bind_ok_iff] at h1
-  obtain ⟨w0, h0, h1⟩ := h1
+  obtain ⟨w0, h0, _, _, h1⟩ := h1
   have s0 := (attach_same h0).1
   refine (C07.attach_moves (.inl rfl) (.inr (.inl rfl)) h0).trans ?_
   have h1 : routerHop w0 s o a toAddr = .ok w1 := h1
@@ -514,14 +516,14 @@ theorem bal_lt_W_run {name : Asset → String} (a : Asset) (ops : List Op) (w : 
 
 theorem withdraw_live_reachable {name : Asset → String} {p : Nat} {a0 a1 : Asset} {lp : Nat}
     (ops : List Op) (w : World) (hinv : PairInv w p a0 a1 lp) (hv : ValidRun name w ops)
-    {h a : Nat} (hhp : h ≠ p) (ha1 : 1 ≤ a)
+    {h a : Nat} (hhp : h ≠ p) (hvalid : w.badAddr h = false) (ha1 : 1 ≤ a)
     (hab : a ≤ bal (run name w ops) (.token lp) h)
     (hS0 : supply w lp < W) (hb0 : AssetBound w a0) (hb1 : AssetBound w a1)
     (hent0 : (bal (run name w ops) a0 p + 2 * E) * supply (run name w ops) lp ≤ bal (run name w ops) a0 p * a * E)
     (hent1 : (bal (run name w ops) a1 p + 2 * E) * supply (run name w ops) lp ≤ bal (run name w ops) a1 p * a * E) :
     ∃ w' x0 x1, exec name (run name w ops) (.tokSend lp h p a .withdraw) = .ok (w', .withdraw x0 x1) ∧
       2 ≤ x0 ∧ 2 ≤ x1 :=
-  C03G.withdraw_live_after_history ops w hinv hv hhp ha1 hab
+  C03G.withdraw_live_after_history ops w hinv hv hhp hvalid ha1 hab
     (bal_lt_W_run a0 ops w hv hb0 p) (bal_lt_W_run a1 ops w hv hb1 p) (supply_lt_W_run lp ops w hS0) hent0 hent1
 
 /-- the same from genesis: the bounds are those of the world in which the pair is created (the LP token starts
@@ -531,7 +533,7 @@ theorem withdraw_live_reachable_from_creation {name : Asset → String} {w w1 : 
     (hv : ValidOp w (.factory s f (.createPair a0 a1 req c ld np nl))) (hn : NewAddrs w np nl)
     (hc : exec name w (.factory s f (.createPair a0 a1 req c ld np nl)) = .ok (w1, out))
     (ops : List Op) (hvr : ValidRun name w1 ops)
-    {h a : Nat} (hhp : h ≠ np) (ha1 : 1 ≤ a)
+    {h a : Nat} (hhp : h ≠ np) (hvalid : w.badAddr h = false) (ha1 : 1 ≤ a)
     (hab : a ≤ bal (run name w1 ops) (.token nl) h)
     (hb0 : AssetBound w a0) (hb1 : AssetBound w a1)
     (hent0 : (bal (run name w1 ops) a0 np + 2 * E) * supply (run name w1 ops) nl ≤ bal (run name w1 ops) a0 np * a * E)
@@ -539,7 +541,7 @@ theorem withdraw_live_reachable_from_creation {name : Asset → String} {w w1 : 
     ∃ w' x0 x1, exec name (run name w1 ops) (.tokSend nl h np a .withdraw) = .ok (w', .withdraw x0 x1) ∧
       2 ≤ x0 ∧ 2 ≤ x1 := by
   obtain ⟨hinv, hs0⟩ := C03G.created_pair_inv hv hn hc
-  exact withdraw_live_reachable ops w1 hinv hvr hhp ha1 hab (by rw [hs0]; exact W_pos)
+  exact withdraw_live_reachable ops w1 hinv hvr hhp (by rw [RegOKP.badAddr_exec hc]; exact hvalid) ha1 hab (by rw [hs0]; exact W_pos)
     (assetBound_step hv.fresh hc hb0) (assetBound_step hv.fresh hc hb1) hent0 hent1
 
 end Halo.Bounds
